@@ -56,6 +56,10 @@ type (
 		Line            int
 		Col             int
 		TrimWhitespaces bool
+
+		// verbatim marks the text of a verbatim block: it is emitted as it is, whatever
+		// whitespace control its neighbours or the set's options ask for
+		verbatim bool
 	}
 )
 
@@ -239,6 +243,7 @@ func (l *lexer) run() {
 			if strings.HasPrefix(l.input[l.pos:], fmt.Sprintf("{%% endverbatim %s%%}", name)) { // end verbatim
 				if l.pos > l.start {
 					l.emit(TokenHTML)
+					l.tokens[len(l.tokens)-1].verbatim = true
 				}
 				w := len("{% endverbatim %}")
 				l.pos += w
